@@ -114,10 +114,17 @@ impl<R: Read> GenomeIO<R> {
         let header_line = if let Some(buffered) = self.next_header.take() {
             buffered
         } else {
-            self.buffer.clear();
-            let bytes_read = reader.read_until(b'\n', &mut self.buffer)?;
-            if bytes_read == 0 {
-                return Ok(None);
+            // Skip blank lines in front of a header (e.g. at the start of the file);
+            // only a real end of input ends the stream of records.
+            loop {
+                self.buffer.clear();
+                let bytes_read = reader.read_until(b'\n', &mut self.buffer)?;
+                if bytes_read == 0 {
+                    return Ok(None);
+                }
+                if self.buffer.iter().any(|b| !b.is_ascii_whitespace()) {
+                    break;
+                }
             }
             self.buffer.clone()
         };
@@ -147,7 +154,11 @@ impl<R: Read> GenomeIO<R> {
             contig.extend_from_slice(&self.buffer);
         }
 
-        if id.is_empty() || contig.is_empty() {
+        // A record without sequence lines (header directly followed by the next header
+        // or by the end of the file) is an empty contig, NOT the end of the input:
+        // returning None here made every caller silently drop the rest of the file.
+        // Callers already skip contigs without bases.
+        if id.is_empty() {
             return Ok(None);
         }
 
